@@ -511,7 +511,7 @@ impl Wallet {
 		id: Option<u32>,
 		slate_id: Option<&Uuid>,
 	) -> Result<Option<Slate>, libwallet::Error> {
-		with_backend!(self, w, { owner::get_stored_tx(&**w, id, slate_id) })
+		with_backend!(self, w, { owner::get_stored_tx(&mut **w, id, slate_id) })
 	}
 	pub fn create_account(&self, label: &str) -> Result<Identifier, libwallet::Error> {
 		with_backend!(self, w, { owner::create_account_path(&mut **w, self.m(), label) })
